@@ -160,7 +160,7 @@ def dirSW : Dir2 := ⟨1, 0, 1, -1⟩
 def dirNW : Dir2 := ⟨0, 0, -1, -1⟩
 
 /-- `range(1, n)` -/
-def rangeUp (n : Nat) : List Nat := (List.range n).drop 1
+def rangeUp (n : Nat) : List Nat := (List.range (n - 1)).map (· + 1)
 /-- `range(n - 2, -1, -1)` -/
 def rangeDown (n : Nat) : List Nat := (List.range (n - 1)).reverse
 
